@@ -61,7 +61,7 @@ Definition set_skip (s : eref) (s_extraFrames : Z) (extraFrames : Z) : Z :=
 Definition translated_set_skip := true.
 
 (* Entry.WithSkip   *)
-Definition with_skip_child (f_newChild : bytes -> eref) (f_withSkip : eref -> Z -> eref) (s_name : bytes) (s_extraFrames : Z) (extraFrames : Z) : eref :=
+Definition with_skip_child (f_newChild : bytes -> eref) (f_withSkip : eref -> Z -> eref) (set_useJSON set_useColor : eref -> bool -> eref) (set_level set_extraFrames : eref -> Z -> eref) (s_name : bytes) (s_extraFrames s_level : Z) (s_useJSON s_useColor : bool) (s_items : gomapB eref) (extraFrames : Z) : eref :=
   (f_withSkip (f_newChild ([x63;x2f] ++ s_name ++ [x5b] ++ dec_of_Z extraFrames ++ [x5d])) extraFrames).
 Definition translated_with_skip_child := true.
 
